@@ -176,6 +176,9 @@ def extra(rep, tier, seed, budget):
     except Exception as e:
         rep.facts.append({'fact': 'bounded/c15_reset.py unavailable', 'detail': repr(e)})
         return
+    # the pruning push of reset only touches this pull request's branches if the clone mirrors the remote
+    from bounded import clone_mirror
+    clone_mirror.integrate(rep)
     res = c15_reset.run(tier, seed)
     rep.bounded.append({k: res.get(k) for k in ('name', 'scope', 'cases', 'distinct_nontrivial', 'rule', 'notes',
                                                 'n_failures', 'failure_signatures', 'clause_counts',
@@ -194,6 +197,9 @@ def extra(rep, tier, seed, budget):
 
 def replay_file(data):
     from bounded import c15_reset
+    if data.get('clause') == 'clone_mirror':
+        from bounded import clone_mirror
+        return clone_mirror.replay(data['case'])
     if isinstance(data.get('case'), (dict, list)):
         return c15_reset.replay(data['case'])
     return None
